@@ -386,6 +386,12 @@ func (E *Engine) fnWrites(fn *ssa.Function, actuals []ssa.Value, bindings []ssa.
 	if E.modelled(name) {
 		return
 	}
+	if name == "(*sync.Cond).Wait" {
+		if !E.harness.NonBlocking {
+			w.all = true
+		}
+		return
+	}
 	body, env := E.calleeBody(fn, tenv)
 	if len(body.Blocks) == 0 {
 		var pkg *types.Package
